@@ -6,10 +6,49 @@ import random
 
 import progprop
 import progstream as P
+from gen import mutants
 from props import c01, c06, c11, c12, c13
 
 THM_MODULES = ["SslModel.Thm.C02"]
 TRANSLATE_PARTS = ["scalar", "errors"]
+
+
+def negative_stream(res, rnd, tier, seed, prop):
+    """ill-formed variants (stray break / continue / return, one deliberate type error, a name used after its
+    scope, narrowed names used where they are not narrowed): the checker should reject them; whatever it
+    accepts must still run without panic (C02) and without leaving its static types (C01)"""
+    base, _ = P.generate(seed + 11, 150 if tier == "quick" else 4000, max_depth=3, features=dict(mark=0.0))
+    muts = [("template", t) for t in mutants.narrowing_templates()] + mutants.mutants(rnd, base, 2)
+    recs = P.run_programs([m for _, m in muts], broken_model=True)
+    res.streams["negative"] = dict(programs=len(muts))
+    acc = 0
+    for (kind, _), r in zip(muts, recs):
+        res.evaluations += 1
+        res.count("negative:%s:%s" % (kind, "rejected" if r.status.startswith("rejected") else r.status))
+        if r.status.startswith("rejected"):
+            continue
+        acc += 1
+        res.nontrivial.add(r.src)
+        if r.status == "parse-panic":
+            if prop in ("C02", "C03"):
+                res.violation("parsing panics (%s) on `%s`" % (r.impl, r.src[:300]), dict(program=r.src, flags=r.flags, impl=r.impl),
+                              dict(oracle="parse-panic", site=r.impl))
+        elif r.status == "exec-panic" and prop == "C02":
+            res.violation("an ill-formed program (%s) is accepted and panics at %s: `%s`" % (kind, r.panic_at, r.src[:400]),
+                          dict(program=r.src, flags=r.flags, impl=r.impl),
+                          dict(oracle="panic", root=progprop.root_of(r) or ("site:" + str(r.panic_at)), rootcls=progprop.root_class(r)))
+        elif prop == "C01" and progprop.root_class(r) is not None:
+            res.violation("an ill-formed program (%s) is accepted and a value leaves its static type: %s in `%s`" %
+                          (kind, r.impl[-300:], r.src[:300]), dict(program=r.src, flags=r.flags, impl=r.impl),
+                          dict(oracle="monitor", rootcls=progprop.root_class(r)))
+        elif prop == "C01" and "(value " in r.impl and ("tag=0" in r.impl or "content=0" in r.impl):
+            res.violation("an ill-formed program (%s) is accepted and its final value is outside the static type %s: `%s` -> %s" %
+                          (kind, r.static, r.src[:300], r.impl[:200]), dict(program=r.src, flags=r.flags, impl=r.impl),
+                          dict(oracle="final-type", cls=str(r.static)[:40]))
+        elif r.status == "impl-crash":
+            res.violation("implementation crashed or hung (%s) on `%s`" % (r.impl[:60], r.src[:300]),
+                          dict(program=r.src, flags=r.flags, impl=r.impl), dict(oracle="crash", cls=r.impl[:20]))
+    res.count("negative:accepted-anyway", acc)
 
 
 def run(res, tier, seed, broken_model):
@@ -22,6 +61,7 @@ def run(res, tier, seed, broken_model):
     precs = P.run_programs(pipes, broken_model=broken_model)
     res.streams["pipelines+histories"] = dict(programs=len(pipes))
     progprop.judge(res, precs, broken_model, label="pipes")
+    negative_stream(res, rnd, tier, seed, "C02")
     c01.host_calls(res, rnd, 80 if tier == "quick" else 2000, broken_model, "C02")
     fuel = sum(1 for r in recs + precs if r.status == "inconclusive-fuel")
     res.count("inconclusive-fuel", fuel)
